@@ -58,6 +58,7 @@ func (e *Engine) RunCheck(prop, tier string, seed int, out *os.File) *CheckResul
 		}
 		res.Reports = append(res.Reports, e.VerifyFunc(k, nil))
 	}
+	res.Reports = append(res.Reports, e.guardedCoverage(prop)...)
 	opts := RunOpts{TimeoutS: 20, Seed: seed, Thorough: tier == "thorough"}
 	if opts.Thorough {
 		opts.TimeoutS = 60
